@@ -16,4 +16,7 @@ def h_exec_commandExecutor_SetStdout : Nat := 0xc5994b381f93dada
 /-- hash of the normalised skeleton of SetStderr (internal/dag/executor/command.go) -/
 def h_exec_commandExecutor_SetStderr : Nat := 0xfa933cea6b5a50a6
 
+/-- hash of the normalised skeleton of * (internal/dag/executor/command.go) -/
+def h_rest_exec_dag_executor_command_go : Nat := 0x0d2b7579cc469571
+
 end BdModel.Canon.Exec
